@@ -33,6 +33,8 @@ def run(ctx):
     _r12(ctx)
     _r13(ctx)
     _r14(ctx)
+    _r15(ctx)
+    _r16(ctx)
     # a panic in the task that serves a TCP upstream stalls every query on that connection: the oneshot replies it unwraps are
     # safe only while their receivers are awaited without a deadline (the rule is C05's side rule S4, evaluated here as well)
     from . import c05
@@ -40,6 +42,65 @@ def run(ctx):
     c05.side_rules_5(ctx)          # ... and so does a metric whose registration failed
     # shared clause: an upstream reply reaches the query it answers (waiters keyed by query id)
     ctx.include("C03", rules=("R8", "R3"))
+
+
+WAITS_ON_OTHERS = ("sync::watch", "sync::Notify", "sync::notify", "sync::broadcast", "sync::Semaphore", "sync::semaphore", "sync::Barrier", "sync::barrier",
+                   "sync::oneshot", "sync::mpsc")
+
+
+def _waits_on_another_task(name):
+    return any(w in name for w in WAITS_ON_OTHERS)
+
+
+def _r16(ctx):
+    """between the listener and the out-query layer no query waits for another query: the ACL, router and cache handlers await their
+    own locks and the next handler, nothing that some other task has to signal (watch / Notify / broadcast / Semaphore / channels).
+    Coalescing identical questions behind one upstream attempt makes every later asker's answer depend on the first asker reaching the
+    line that wakes them — on every path, the ones where nothing was cached included."""
+    P = ctx.P
+    assert _waits_on_another_task("tokio::sync::watch::Receiver::<T>::changed") and not _waits_on_another_task("tokio::sync::RwLock::<T>::read"), "self-test"
+    n = 0
+    bad = []
+    for b in P.bodies.values():
+        if "::test" in b.id or not (b.id.startswith("erbium::dns::cache::") or b.id.startswith("erbium::dns::router::") or b.id.startswith("erbium::dns::acl::")):
+            continue
+        n += 1
+        for bb, tm in b.calls():
+            nme = callee_name(tm) or ""
+            if _waits_on_another_task(nme):
+                ctx.saw(b)
+                bad.append("%s at %s" % (nme.rsplit("::", 2)[-2] + "::" + nme.rsplit("::", 1)[-1], P.rel(tm["sp"])))
+    ctx.check(not bad, "R16", "no-query-waits-for-another-query", "crates/erbium-core/src/dns/cache/mod.rs",
+              "a handler between listener and out-query layer uses a cross-task signal: %s" % (bad[:4] or "-"))
+    if ctx.config in ("default", "dns"):
+        ctx.floor("R16", "bodies of the ACL, router and cache handlers", n, 10)
+
+
+def _r15(ctx):
+    """a connection to an upstream is given up in one place, which also tells everybody waiting on it: `tcp = None` is written only
+    by `tcp_teardown` (which drains the waiters with an error). Dropping the stream anywhere else leaves their responders registered
+    with no connection and — the watchdogs only run while there is one — nothing that will ever answer them."""
+    P = ctx.P
+    n = 0
+    for b in P.bodies.values():
+        if not b.id.startswith("erbium::dns::outquery::TcpNameserver::") or "::test" in b.id:
+            continue
+        root = b.id.split("::{")[0].rsplit("::", 1)[-1]
+        T = None
+        for bb, idx, st in b.stmts():
+            pl = st["p"]
+            rv = st.get("rv")
+            if not rv or len(pl) < 2 or pl[-1] != ".tcp":
+                continue
+            T = T or terms(P, b)
+            v = norm(T.rvalue(rv, bb, idx))
+            if v[0] == "agg" and v[2] == "None":
+                n += 1
+                ctx.saw(b)
+                ctx.check(root == "tcp_teardown", "R15", "upstream-connection-dropped-only-by-teardown:%s" % root, ctx.where(b, st["sp"]),
+                          "the TCP stream is dropped outside tcp_teardown: the queries in flight on it are not told")
+    if ctx.config in ("default", "dns"):
+        ctx.floor("R15", "places that drop the upstream connection", n, 1)
 
 
 def _r14(ctx):
